@@ -8,6 +8,10 @@ import PcbV.Model.IntOps
   (`Integer.to_float/to_single/to_double`, `Single.to_double`, `Integer.sign`).
   A soft floating point error (Overflow, Division by zero) carries the value that the
   `FloatErrorHandler` substitutes (the signed maximum of the result type).
+  The session option `double` (`Values.double_math`) is deliberately NOT a parameter of this model:
+  none of these functions may depend on it (`Integer.to_float` always gives a Single; only the
+  transcendental functions and `^` look at the option).  The correspondence run drives the real
+  functions with `double_math` off and on against this one model.
 -/
 namespace PcbV.Promote
 open PcbV PcbV.Mbf
